@@ -6,3 +6,5 @@ INVARIANT TrajOK
 INVARIANT TrajBackOK
 INVARIANT PostselectOK
 INVARIANT WideTrajBackOK
+INVARIANT Drift_Packing
+INVARIANT Drift_CircuitRepr
